@@ -12,6 +12,7 @@ func init() {
 	verifRegister("VerifC13_KLoad", VerifC13_KLoad)
 	verifRegister("VerifC13_KLoadTail", VerifC13_KLoadTail)
 	verifRegister("VerifC13_KLoadNest", VerifC13_KLoadNest)
+	verifRegister("VerifC13_KRoundTrip", VerifC13_KRoundTrip)
 }
 
 // ---- reference ---------------------------------------------------------------------------------
@@ -453,4 +454,110 @@ func VerifC13_KLoadNest() {
 	}
 	vObserve("doc", string(doc))
 	c13CheckDoc(doc, mode)
+}
+
+// ---- dump -> load round trip on whole values --------------------------------------------------
+
+// c13Same: structural equality of two lisp values of the JSON-representable kinds
+func c13Same(a, b *lisp.LVal) bool {
+	if a.Type != b.Type {
+		return false
+	}
+	switch a.Type {
+	case lisp.LInt:
+		return a.Int == b.Int
+	case lisp.LFloat:
+		return a.Float == b.Float
+	case lisp.LString:
+		return a.Str == b.Str
+	case lisp.LSymbol:
+		return a.Str == b.Str
+	case lisp.LArray:
+		if a.Len() != b.Len() {
+			return false
+		}
+		for i := 0; i < a.Len(); i++ {
+			if !c13Same(a.ArrayIndex(lisp.Int(i)), b.ArrayIndex(lisp.Int(i))) {
+				return false
+			}
+		}
+		return true
+	case lisp.LSortMap:
+		if a.Len() != b.Len() {
+			return false
+		}
+		ks := a.MapKeys()
+		for _, k := range ks.Cells {
+			x, ok1 := a.Map().Get(k)
+			y, ok2 := b.Map().Get(k)
+			if !ok1 || !ok2 || !c13Same(x, y) {
+				return false
+			}
+		}
+		return true
+	case lisp.LSExpr:
+		return a.IsNil() && b.IsNil()
+	}
+	return false
+}
+
+// json:load-* accepts every document json:dump-* produces and returns an equal value -- exactly,
+// including integers beyond 2^53, under :exact-integers.  Values: 8 shapes of nested vectors and
+// sorted maps over a string of two arbitrary ASCII bytes (every escape class both ways), an
+// integer from a boundary list, booleans and nil.
+func VerifC13_KRoundTrip() {
+	ints := []int{0, 1, -1, 42, 9007199254740993, -9007199254740993, 9223372036854775807, -9223372036854775808, 12345678901234567}
+	iv := lisp.Int(ints[vConcInt(vndChoice("int", len(ints)))])
+	n := vndChoice("len", vParam("strlen", 1)+1)
+	sb := make([]byte, n)
+	for i := range sb {
+		c := vndByte("c")
+		vAssume(c < 0x80) // non-ASCII text is KEncStr's subject (invalid bytes do not round-trip by design)
+		sb[i] = c
+	}
+	sv := lisp.String(string(sb))
+	mk := func(k *lisp.LVal, v *lisp.LVal) *lisp.LVal {
+		m := lisp.SortedMap()
+		m.Map().Set(k, v)
+		return m
+	}
+	var v *lisp.LVal
+	switch vndChoice("shape", 8) {
+	case 0:
+		v = iv
+	case 1:
+		v = sv
+	case 2:
+		v = lisp.Array(nil, []*lisp.LVal{iv, sv})
+	case 3:
+		v = mk(sv, iv)
+	case 4:
+		v = mk(lisp.String("k"), lisp.Array(nil, []*lisp.LVal{iv, lisp.Bool(true), lisp.Nil(), lisp.Bool(false)}))
+	case 5:
+		v = lisp.Array(nil, []*lisp.LVal{mk(sv, lisp.Array(nil, []*lisp.LVal{})), mk(lisp.String("a"), mk(lisp.String("b"), sv))})
+	case 6:
+		v = lisp.Array(nil, []*lisp.LVal{})
+	default:
+		m := mk(lisp.String("z"), iv)
+		m.Map().Set(lisp.String("a"), sv)
+		m.Map().Set(sv, lisp.Nil())
+		v = m
+	}
+	out, err := Dump(v, false)
+	vAssert(err == nil, "a value of the JSON kinds dumps")
+	vObserve("doc", string(out))
+	_, valid := rjParse(out)
+	vAssert(valid, "an independent recogniser accepts the document dump produced")
+	s := DefaultSerializer()
+	back := s.LoadWith(out, LoadOpts{ExactIntegers: true})
+	vAssert(back.Type != lisp.LError, "load accepts every document dump produces")
+	vAssert(c13Same(v, back), "and returns an equal value, integers exactly (:exact-integers)")
+	out2, err2 := Dump(back, false)
+	vAssert(err2 == nil && bytesEq(out, out2), "dumping the loaded value reproduces the document (canonical)")
+	// :string-numbers on both sides: numbers travel as their literal text
+	outS, errS := Dump(v, true)
+	vAssert(errS == nil, "dumps with string numbers")
+	backS := s.LoadWith(outS, LoadOpts{StringNumbers: true})
+	vAssert(backS.Type != lisp.LError, "and loads again")
+	vCover("end")
 }
